@@ -154,6 +154,7 @@ def canonical_facts(raw):
     from . import canon
     from .rules import setops
     canon.apply(raw, canon.field_roles(raw), canon.viewloc_roles(raw))
+    canon.apply_params(raw, canon.param_roles(raw))
     F = factsmod.Facts(raw)
     try:
         ren, enums = setops.discover(F)
